@@ -953,7 +953,7 @@ func (d *drv) opRejectedBulk() {
 // TestTreeModel: stateful comparison of a real on-disk index with the multi-version map.
 func TestTreeModel(t *testing.T) {
 	base := vk.Dir()
-	vk.Check(t, 3200, 60000, func(rt *rapid.T, c *vk.Case) {
+	vk.Check(t, 3200, 48000, func(rt *rapid.T, c *vk.Case) {
 		d := &drv{rt: rt, c: c, cfg: genCfg(rt), dir: filepath.Join(base, "t"), cur: newState(), states: map[uint64]*state{},
 			folders: map[uint64]bool{0: true}}
 		os.RemoveAll(d.dir)
